@@ -40,6 +40,7 @@ type offIn struct {
 	QuietMs   int    `json:"quiet_ms"`
 	Trace     string `json:"trace"`
 	BudgetMs  int    `json:"budget_ms"`
+	ResumeAt  int    `json:"resume_at"` // > 0: the target already holds a checkpoint at the end of this command
 }
 
 func offRun(in []byte) (interface{}, error) {
@@ -54,6 +55,15 @@ func offRun(in []byte) (interface{}, error) {
 	defer tr.Close()
 	sink.SetSecrets("src-SECRET-pw", "tgt-SECRET-pw")
 	rnd := rand.New(rand.NewSource(cfg.Seed))
+	// TLC integers are 32 bit: offsets are reported relative to the announced start offset (computed in
+	// int64 here); anything absurdly far from the stream becomes the sentinel -999999
+	rel := func(x int64) int64 {
+		d := x - cfg.Start
+		if d < -100000 || d > 100000000 {
+			return -999999
+		}
+		return d
+	}
 	// the source's data: a small RDB and a command stream with known command boundaries
 	f := rdbref.NewFile(9)
 	f.Aux([]byte("redis-ver"), []byte("5.0.7"))
@@ -63,6 +73,7 @@ func offRun(in []byte) (interface{}, error) {
 	rdbBytes := f.Finish(true)
 	var stream []byte
 	var ends []int64
+	pushAt := map[int]int{} // rpush number -> index into ends
 	add := func(b []byte) {
 		stream = append(stream, b...)
 		ends = append(ends, cfg.Start+int64(len(stream)))
@@ -79,6 +90,7 @@ func offRun(in []byte) (interface{}, error) {
 			add(respCmd("SELECT", strconv.Itoa(rnd.Intn(2))))
 		}
 		add(respCmd("rpush", "list", strconv.Itoa(i)))
+		pushAt[i] = len(ends) - 1
 	}
 	cmdPos := func(idx int) int { // byte position in the stream right after the idx-th command boundary
 		if idx >= len(ends) {
@@ -102,7 +114,13 @@ func offRun(in []byte) (interface{}, error) {
 	runid := "ffeeddccbbaa00112233445566778899aabbccdd"
 	src := fakesrc.New(fakesrc.Script{RunID: runid, Offset: cfg.Start, RDB: rdbBytes, Stream: stream, Frags: cfg.Frags, PauseUs: 200,
 		DropAt: dropAt, RefuseNext: cfg.Refuse, IdleAt: idleAt, IdleMs: cfg.IdleMs}, func(e fakesrc.Event) {
-		tr.Emit(tracer.Ev{"e": "src-" + e.Kind, "conn": e.Conn, "off": e.Off, "n": e.N, "runid_ok": e.RunID == runid || e.RunID == "?"})
+		off := e.Off
+		if e.Kind == "ack" && off != 0 || e.Kind == "psync" && off != -1 {
+			off = rel(off)
+		} else if e.Kind == "psync" {
+			off = -1000000 // "psync ? -1": a full resynchronisation is requested
+		}
+		tr.Emit(tracer.Ev{"e": "src-" + e.Kind, "conn": e.Conn, "off": off, "zero": e.Off == 0, "n": e.N, "runid_ok": e.RunID == runid || e.RunID == "?"})
 	})
 	srcAddr, err := src.Listen()
 	if err != nil {
@@ -115,7 +133,17 @@ func offRun(in []byte) (interface{}, error) {
 		return nil, err
 	}
 	defer tgt.Close()
-	tr.Emit(tracer.Ev{"e": "cfg", "start": cfg.Start, "ends": ends, "stream_len": len(stream), "drops": dropAt, "idles": idleAt, "refuse": cfg.Refuse})
+	relEnds := []int64{}
+	for _, e := range ends {
+		relEnds = append(relEnds, rel(e))
+	}
+	if dropAt == nil {
+		dropAt = []int{}
+	}
+	if idleAt == nil {
+		idleAt = []int{}
+	}
+	tr.Emit(tracer.Ev{"e": "cfg", "start": 0, "real_start": fmt.Sprint(cfg.Start), "ends": relEnds, "stream_len": len(stream), "drops": dropAt, "idles": idleAt, "refuse": cfg.Refuse})
 	conf.Options.SourceType, conf.Options.TargetType = "standalone", "standalone"
 	conf.Options.SourceAuthType, conf.Options.TargetAuthType = "auth", "auth"
 	conf.Options.ResumeFromBreakPoint = true
@@ -132,7 +160,20 @@ func offRun(in []byte) (interface{}, error) {
 	conf.Options.TargetVersion = "5.0"
 	conf.Options.Id = "verif"
 	dbSync.VerifEvent = func(ds *dbSync.DbSyncer, ev string, n int64) {
+		if ev == "ack" {
+			n = rel(n)
+		}
 		tr.Emit(tracer.Ev{"e": "tool-" + ev, "n": n})
+	}
+	first := 0
+	if cfg.ResumeAt > 0 && cfg.ResumeAt < len(ends)-1 {
+		first = cfg.ResumeAt
+		o := ends[cfg.ResumeAt]
+		tgt.Put(0, utils.CheckpointKey, mredis.Entry{Val: rdbref.Value{Kind: "hash", Hash: []rdbref.HF{
+			{Field: []byte(srcAddr + "-" + utils.CheckpointRunId), Value: []byte(runid)},
+			{Field: []byte(srcAddr + "-" + utils.CheckpointVersion), Value: []byte("1")},
+			{Field: []byte(srcAddr + "-" + utils.CheckpointOffset), Value: []byte(strconv.FormatInt(o, 10))}}}})
+		tr.Emit(tracer.Ev{"e": "resume-from", "n": rel(o)})
 	}
 	node := &slot.SyncNode{Id: 0, Source: srcAddr, SourcePassword: "", Target: []string{tgtAddr}, TargetPassword: "tgt-SECRET-pw", SlotLeftBoundary: -1, SlotRightBoundary: -1}
 	ds := dbSync.NewDbSyncer(node, 9320, semaphore.NewWeighted(2))
@@ -150,7 +191,7 @@ func offRun(in []byte) (interface{}, error) {
 	for _, e := range tgt.Log() {
 		if e.Cmd == "HSET" && e.InExec && len(e.Args) == 3 && bytes.HasSuffix(e.Args[1], []byte("-"+utils.CheckpointOffset)) {
 			o, _ := strconv.ParseInt(string(e.Args[2]), 10, 64)
-			ckpts = append(ckpts, o)
+			ckpts = append(ckpts, rel(o))
 		}
 	}
 	if ckpts == nil {
@@ -171,6 +212,12 @@ func offRun(in []byte) (interface{}, error) {
 	}
 	missing, dup := 0, 0
 	for i := 0; i < cfg.Commands; i++ {
+		if first > 0 && pushAt[i] <= first {
+			if cnt[strconv.Itoa(i)] > 0 {
+				dup++ // a command before the checkpoint was applied again
+			}
+			continue
+		}
 		switch c := cnt[strconv.Itoa(i)]; {
 		case c == 0:
 			missing++
